@@ -60,7 +60,22 @@ impl Check for StepCheck {
             let setup = gen::setup(&mut rng, c, l, &prof);
             if let Some((base, pre)) = reach(cx, c, l, &setup) {
                 cx.stats.count("zoo_states", 1);
-                let cands = (self.cands)(&mut rng, &pre, cx.tier);
+                let mut cands = (self.cands)(&mut rng, &pre, cx.tier);
+                // "X, something else changes the state by its own route, the identical X again":
+                // whatever an implementation remembers about the last request must not outlive
+                // the state it was derived from (every call is still judged on its own pre-state)
+                let n = cands.len();
+                for _ in 0..n.min(6) {
+                    let x = cands[rng.usize(n)].ops.clone();
+                    if x.len() > 6 {
+                        continue;
+                    }
+                    let mut ops = x.clone();
+                    ops.extend(gen::perturbation(&mut rng, c, l));
+                    ops.extend(x);
+                    cands.push(Cand { ops });
+                    cx.stats.count("echo_candidates", 1);
+                }
                 fan_out(cx, self.id, &self.owns, c, l, &setup, &base, &pre, &cands);
             }
         }
